@@ -47,7 +47,9 @@ SPEC = {
     "mandatory_probes": {"any": ["failing_statement", "nop_match", "special_literal", "comment_or_empty", "dict_cursor_class", "variable_in_batch", "return_cursors_false", "no_semicolon_batch"]},
 }
 
-SPECIALS = ["please GRANT access", "semi;colon", "it's", 'dq"dq', "dash--dash", "/* not a comment */", "back\\slash", "new\nline", "tab\tin", "ünï©ode ✓", "", " lead and trail ", "%s %d %%", "a;b;c--d"]
+SPECIALS = ["please GRANT access", "semi;colon", "it's", 'dq"dq', "dash--dash", "/* not a comment */", "back\\slash", "new\nline", "tab\tin", "ünï©ode ✓", "", " lead and trail ", "%s %d %%", "a;b;c--d",
+            # every kind of line boundary inside a literal: data, not layout
+            "cr\r\nlf", "only\rcr", "form\x0cfeed", "nel\x85x", "ls\u2028ps\u2029end", "vt\x0bx"]
 HAZARDS = ["dollar"]
 
 
